@@ -563,3 +563,38 @@ func (c *Chain) SortedAccountNames() []string {
 
 // InBlock reports whether a block is open.
 func (c *Chain) InBlock() bool { return c.inBlock }
+
+// RestartFromExport exports the application's whole state the way `teleport export` does and starts a fresh application
+// from it with InitChain (a restart of the network from an exported genesis). The returned chain has committed nothing
+// beyond the genesis commit; headers of the old chain are not carried over.
+func (c *Chain) RestartFromExport(now time.Time) (n *Chain, err error) {
+	if c.inBlock {
+		panic("RestartFromExport: open block")
+	}
+	defer func() {
+		if rec := recover(); rec != nil {
+			n, err = nil, fmt.Errorf("panic: %v", rec)
+		}
+	}()
+	exp, err := c.App.ExportAppStateAndValidators(false, nil)
+	if err != nil {
+		return nil, fmt.Errorf("export: %w", err)
+	}
+	db := dbm.NewMemDB()
+	n = &Chain{
+		Name: c.Name, DB: db, TxConfig: c.TxConfig, Vals: c.Vals, Signers: c.Signers,
+		Accounts: c.Accounts, Headers: map[int64]*xibctmtypes.Header{}, AppHashAfter: map[int64][]byte{},
+		LastTime: now,
+	}
+	n.App = newApp(db, true)
+	n.App.InitChain(abci.RequestInitChain{
+		ChainId:         "teleport_9000-1",
+		Validators:      []abci.ValidatorUpdate{},
+		ConsensusParams: exp.ConsensusParams,
+		AppStateBytes:   exp.AppState,
+		InitialHeight:   exp.Height,
+		Time:            now,
+	})
+	n.App.Commit()
+	return n, nil
+}
